@@ -708,6 +708,9 @@ impl JobServerHandle {
     where
         F: FnOnce() -> i32,
     {
+        // (Before our token is destroyed: a job that cannot be started, for
+        // want of file descriptors or processes, must not cost a token.)
+        let (r, w) = make_pipe(50).map_err(RedoError::opaque_error)?;
         {
             let mut state = self.state.borrow_mut();
             assert_eq!(state.my_tokens, 1);
@@ -717,8 +720,13 @@ impl JobServerHandle {
             #[cfg(feature = "verif-hooks")]
             verif_token_event("start", &state, "");
         }
-        let (r, w) = make_pipe(50).map_err(RedoError::opaque_error)?;
-        match unsafe { unistd::fork() }.map_err(RedoError::opaque_error)? {
+        let forked = unsafe { unistd::fork() };
+        if forked.is_err() {
+            let _ = unistd::close(r);
+            let _ = unistd::close(w);
+            self.state.borrow_mut().my_tokens += 1;
+        }
+        match forked.map_err(RedoError::opaque_error)? {
             ForkResult::Child => {
                 if let Err(e) = unistd::close(r) {
                     log_err!("close read end of pipe: {}\n", e);
@@ -957,15 +965,17 @@ impl AllJobsDone {
             &self.state.borrow(),
             &format!("{} {} {}", tokens, cheats, self.params.top_level),
         );
+        // TODO(someday): Retry if interrupted or short write.
+        // (Also when the count is wrong: whoever still waits for a token, the
+        // error path of this very process included, must be able to get one.)
+        unistd::write(self.params.token_fds.1, &tokens_buf[..tokens])
+            .map_err(RedoError::opaque_error)?;
         if (tokens - cheats) as i32 != self.params.top_level {
             return Err(RedoError::new(format!(
                 "on exit: expected {} tokens; found {}-{}",
                 self.params.top_level, tokens, cheats
             )));
         }
-        // TODO(someday): Retry if interrupted or short write.
-        unistd::write(self.params.token_fds.1, &tokens_buf[..tokens])
-            .map_err(RedoError::opaque_error)?;
         Ok(())
     }
 }
